@@ -425,20 +425,18 @@ class LogicalType(type):  # noqa
                         return val
 
         elif cls.combinator == "^":
-            # 1. check EXACT identical type
-            # because args are de-duplicate, so value can only end up one type
-            for con in cls.args:
-                if type(value) == con:
-                    return value
-
+            # every condition is tested against the input value itself:
+            # the data must match exactly one of them, in whatever order they are declared
             xor = None
+            result = value
 
             for con in cls.args:
                 with context.enter(cls.combinator) as new_context:
                     try:
-                        value = new_context.transformer(value, con)
+                        val = new_context.transformer(value, con)
                         if xor is None:
                             xor = con
+                            result = val
                         else:
                             context.handle_error(
                                 exc.OneOfViolatedError(
@@ -453,6 +451,7 @@ class LogicalType(type):  # noqa
             if xor is not None:
                 # only one condition is satisfied in XOR
                 context.clear_tmp_error()
+                value = result
 
         elif cls.combinator == "~":
             for con in cls.args:
